@@ -127,6 +127,11 @@ impl M {
   }
 }
 
+/// Placeholder result (no events) for callers that do not need the reference on the solver side.
+pub fn no_events(r0: Regs) -> Out {
+  Out { r: r0, cycles: 0, len: 1, nev: 0, ev_kind: [0; MAX_EV], ev_addr: [0; MAX_EV], ev_val: [0; MAX_EV], block_end: false, status: ST_NORMAL, defined: true, nreads: 0 }
+}
+
 /// Executes one instruction.  `code` = the instruction bytes (first byte is the
 /// opcode), `rd` = the values successive bus reads return.
 pub fn step(code: [u8; 3], r0: Regs, rd: [u8; 4]) -> Out {
